@@ -46,9 +46,13 @@ func init() {
 		"for x in a; do\n echo "+big+big[:4500]+"\n while b; do\n  c\n done\ndone\n",
 		"case x in\n a)\n  echo "+big+"\n  b;;\n c)\n  d;;\nesac\n",
 	)
+	c18Programs = append(c18Programs,
+		"while echo "+big+"; do\n b\ndone\n", "if echo "+big+"; then\n b\nelif c "+big+"; then\n d\nfi\n", "until a; echo "+big+"; do\n b\ndone\n",
+		big+" a\n", big+big+" <<E\nx\nE\n", "{\n"+big+"\n}\n",
+	)
 	var b strings.Builder
 	b.WriteString("if a; then\n")
-	for i := 0; i < 400; i++ {
+	for i := 0; i < 130; i++ {
 		fmt.Fprintf(&b, "  echo line %d of many; { x; y; }\n", i)
 	}
 	b.WriteString("fi\n")
@@ -189,6 +193,7 @@ func (p c18) Run(t *testing.T, c *Case, s Sched, keepLog bool) *Obs {
 	}
 
 	freeOut := func(cfgIdx int) ([]byte, bool) {
+		Tick()
 		cfg := DecodeConfig(cfgIdx)
 		var b1 bytes.Buffer
 		live.Calls++
@@ -261,7 +266,7 @@ func (p c18) Run(t *testing.T, c *Case, s Sched, keepLog bool) *Obs {
 			cfgs = append(cfgs, rng.Intn(256))
 		}
 	}
-	kinds := []string{"fail", "short", "chunk"}
+	kinds := []string{"fail", "short", "chunk", "failfull", "fail-sw"}
 	if c.Writer.Kind != "all" {
 		kinds = []string{c.Writer.Kind}
 	}
@@ -294,13 +299,20 @@ func (p c18) Run(t *testing.T, c *Case, s Sched, keepLog bool) *Obs {
 		}
 		cfg := DecodeConfig(ci)
 		for _, kind := range kinds {
+			Tick()
 			for _, k := range ks {
 				w := &gosim.SimWriter{Plan: gosim.WriterPlan{Kind: kind, After: k}}
 				if kind == "chunk" {
 					w.Plan.After = 1 + k%7
 				}
+				var dst io.Writer = w
+				if kind == "fail-sw" {
+					// same failure, but the destination also implements io.StringWriter
+					w.Plan.Kind = "fail"
+					dst = gosim.SimStringWriter{SimWriter: w}
+				}
 				live.Calls++
-				err, pn, st := safePrint(cfg, w, T)
+				err, pn, st := safePrint(cfg, dst, T)
 				what := fmt.Sprintf("writer %s after %d of %d bytes", kind, k, L)
 				if pn != nil {
 					add("print-panic", fmt.Sprintf("Fprint panicked with %s (config %d): %v\n%s", what, ci, pn, st), narrow(ci, kind, k))
